@@ -98,6 +98,7 @@ def run(repo, report, tier):
     report.guard("C18.R2", "class table", r2_classes, repo, report)
     report.guard("C18.R2", "anchored classes", r2_anchored, repo, report)
     report.guard("C18.R3", "parameters", r3_parameters, repo, report)
+    report.guard("C18.R3", "parameter routes", r3_routes, repo, report)
     report.guard("C18.R4", "precedence", r4_precedence, repo, report)
     report.guard("C18.R5", "file notation", r5_file, repo, report)
     report.guard("C18.R6", "absolute errors", r6_abs_errors, repo, report)
@@ -368,7 +369,8 @@ def r3_parameters(repo, report):
     # 'anywhere' becomes force_anywhere only for the three regular classes
     f = _roles_make_not_linked(repo)
     ifs = [n for n in ast.walk(f) if isinstance(n, ast.If) and "'anywhere'" in src(n.test)]
-    ok = len(ifs) == 1 and "aspec.parameters['force_anywhere'] = True" in src(ifs[0]) and all(k in src(ifs[0].test) for k in ("FrontAdapter", "BackAdapter", "RightmostFrontAdapter"))
+    sets_force = [x for x in (ast.walk(ifs[0]) if len(ifs) == 1 else []) if isinstance(x, ast.Assign) and isinstance(x.targets[0], ast.Subscript) and isinstance(x.targets[0].slice, ast.Constant) and x.targets[0].slice.value == "force_anywhere" and src(x.value) == "True"]
+    ok = len(ifs) == 1 and len(sets_force) == 1 and all(k in src(ifs[0].test) for k in ("FrontAdapter", "BackAdapter", "RightmostFrontAdapter"))
     for cn in ("FrontAdapter", "BackAdapter"):
         c3, i3 = repo.need_method(cn, "__init__")
         ok = ok and "kwargs.pop('force_anywhere', False)" in src(i3)
@@ -383,11 +385,15 @@ def r3_parameters(repo, report):
         cn = chain(fn_)
         if cn == "AdapterSpecification.parse":
             return Obj("ASPEC", nonnull=True)
-        return None
+        return _copy_hook(ex, node, env)
 
     prow = explore(repo, strip_docstring(f.body), {p_: Obj(p_.upper()) for p_ in fps}, call_hook=pop_hook, inline=False, max_rows=4000)
-    unconsumed = [r.describe()["valuation"] for r in prow if r.exit[0] == "return" and not any(e[0] == "call" and e[1] == "pop:anywhere" and e[2] == "ASPEC.parameters" for e in r.effects)]
-    forced_without = [r.describe()["valuation"] for r in prow if any(e[0] == "store" and e[1] == "ASPEC.parameters['force_anywhere']" for e in r.effects) and r.valuation.get("truthy:ANYWHERE_GIVEN") is not True]
+    def consumed(r):
+        # from the specification's own dict before it is merged, or from the merged copy that is passed to the constructor
+        return any(e[0] == "call" and e[1] == "pop:anywhere" and (e[2] == "ASPEC.parameters" or e[2].startswith("COPY@")) for e in r.effects)
+
+    unconsumed = [r.describe()["valuation"] for r in prow if r.exit[0] == "return" and not consumed(r)]
+    forced_without = [r.describe()["valuation"] for r in prow if any(e[0] == "store" and e[1].endswith("['force_anywhere']") for e in r.effects) and r.valuation.get("truthy:ANYWHERE_GIVEN") is not True]
     ok = ok and not unconsumed and not forced_without and any(r.exit[0] == "return" for r in prow)
     report.ob("C18.R3", "'anywhere' -> force_anywhere", ok, facts={"if": src(ifs[0])[:200] if ifs else None}, expected="popped on every path (whatever the class); sets force_anywhere only if given, for regular 5'/3'/rightmost adapters, whose constructors pop it", loc=repo.loc(f),
               why=("'anywhere' is not removed from the parameters on a path that builds the adapter: it would reach the constructor as an unknown keyword" if unconsumed else ""))
@@ -510,13 +516,55 @@ def r5_file(repo, report):
         if form != "other":
             c2 = r.valuation.get("role:startswith:^")
             form = "^file:" if c2 else ("file$:" if (dollar or r.valuation.get("role:startswith:file$:")) else "file:")
-        pre = first.startswith("'^'+")
-        suf = first.endswith("+'$'")
+        terms_ = first.split("+")  # the concatenation as a canonical (order-free) sum: which characters are attached at all;
+        pre = "'^'" in terms_      # WHERE they are attached is decided by the syntactic obligation below
+        suf = "'$'" in terms_
         tbl.setdefault(form, set()).add((pre, suf))
     want = {"file:": {(False, False)}, "^file:": {(True, False)}, "file$:": {(False, True)}}
     got = {k: v for k, v in tbl.items() if k != "other"}
     report.ob("C18.R5", "anchoring characters of file notation", got == want, facts={k: sorted(v) for k, v in tbl.items()}, expected={k: sorted(v) for k, v in want.items()}, loc=repo.loc(f2), cases=len(rows),
               why="" if got == want else "the anchoring character is not re-attached at the end named by the notation")
+    # the anchoring characters are attached to the SEQUENCE of a record: a record may carry its own ';parameters'
+    # (documented), so prefix + record + suffix would put the '$' behind the last parameter value
+    f2n = repo.func("parser", "make_adapters_from_one_specification")
+    recs = [n for n in ast.walk(f2n) if isinstance(n, ast.For) and isinstance(n.iter, ast.Call) and chain(n.iter.func) == "read_adapters_fasta"]
+    okp = None
+    factsp = {}
+    if len(recs) == 1 and isinstance(recs[0].target, ast.Tuple) and len(recs[0].target.elts) == 2 and isinstance(recs[0].target.elts[1], ast.Name):
+        rec = recs[0].target.elts[1].id
+        mk = [x for x in calls(recs[0]) if chain(x.func) == "make_adapter" and x.args]
+        if len(mk) == 1:
+            ops = []
+
+            def flat(e):
+                if isinstance(e, ast.BinOp) and isinstance(e.op, ast.Add):
+                    flat(e.left)
+                    flat(e.right)
+                else:
+                    ops.append(e)
+
+            flat(mk[0].args[0])
+            names = [src(o) for o in ops]
+            # names split off the record with .partition(';') / .split(';', 1)
+            parts = {}
+            for n in ast.walk(recs[0]):
+                if isinstance(n, ast.Assign) and isinstance(n.value, ast.Call) and isinstance(n.value.func, ast.Attribute) and n.value.func.attr in ("partition", "split") and chain(n.value.func.value) == rec \
+                        and n.value.args and isinstance(n.value.args[0], ast.Constant) and n.value.args[0].value == ";" and isinstance(n.targets[0], ast.Tuple):
+                    for i_, e in enumerate(n.targets[0].elts):
+                        if isinstance(e, ast.Name):
+                            parts[e.id] = i_
+            factsp = {"first_argument": names, "record_split_at_semicolon": sorted(parts, key=parts.get)}
+            suffix_pos = [i_ for i_, o in enumerate(ops) if isinstance(o, ast.Name) and "suffix" in o.id]
+            raw_pos = [i_ for i_, o in enumerate(ops) if isinstance(o, ast.Name) and o.id == rec]
+            seq_pos = [i_ for i_, o in enumerate(ops) if isinstance(o, ast.Name) and parts.get(o.id) == 0]
+            if suffix_pos and raw_pos and not seq_pos:
+                okp = False  # suffix attached to the whole record text
+            elif suffix_pos and seq_pos and suffix_pos[0] == seq_pos[0] + 1:
+                prefix_pos = [i_ for i_, o in enumerate(ops) if isinstance(o, ast.Name) and "prefix" in o.id]
+                okp = bool(prefix_pos) and prefix_pos[0] == seq_pos[0] - 1
+    report.ob("C18.R5", "anchoring suffix is attached to the record's sequence, before its own parameters", okp, facts=factsp,
+              expected="prefix + <sequence part of the record> + suffix + ';' + <the record's parameters>", loc=repo.loc(f2n),
+              why="" if okp is not False else "with file$: a record such as 'ACGT;e=0.2' becomes 'ACGT;e=0.2$': the '$' ends up in the parameter value (\"could not convert string to float: '0.2$'\") and the record is not read")
     raf = _roles_read_adapters_fasta(repo)
     ys = [src(n.value) for n in ast.walk(raf) if isinstance(n, ast.Yield)]
     report.ob("C18.R5", "read_adapters_fasta yields (name, sequence) of every record", ys == ["(name, record.sequence)"] and any(isinstance(n, ast.For) and src(n.iter) == "fasta" for n in ast.walk(raf)), facts={"yields": ys}, expected="for record in fasta: yield name, record.sequence", loc=repo.loc(raf))
@@ -731,3 +779,61 @@ def r2_anchored(repo, report):
         n += 1
         report.ob("C18.R2", o.construct, None if o.state == "UNRECOGNISED" else o.state == "DISCHARGED", facts=o.facts, expected=o.expected, loc=o.loc, why=o.why, cases=o.cases)
     report.floor("C18.R2", "anchored adapter classes", n, 2)
+
+
+def r3_routes(repo, report):
+    """Parameters reach the adapter constructors on two routes: in the specification itself (``SEQ;key``) and from the
+    ``file:...;key`` level, merged into the dict that is handed down as the lower level.  A canonical key that is not a
+    constructor parameter must be consumed - or rejected with one of the caught exception classes - on BOTH routes;
+    otherwise the constructor is called with an unknown keyword (TypeError: a traceback instead of exit status 2)."""
+    fn = _roles_parse_search_parameters(repo)
+    tbl = [n for n in ast.walk(fn) if isinstance(n, ast.Assign) and chain(n.targets[0]) == "allowed_parameters" and isinstance(n.value, ast.Dict)]
+    t = constfold.fold(tbl[0].value)
+    canon = {k for k, v in t.items() if v is None}
+    c, init = repo.need_method("SingleAdapter", "__init__")
+    ctor = set(params(init)[1:]) | {"force_anywhere"}
+    converted = set()
+    for n in ast.walk(fn):
+        if isinstance(n, ast.If) and isinstance(n.test, ast.Compare) and isinstance(n.test.left, ast.Constant) and isinstance(n.test.ops[0], ast.In) and any(isinstance(x, ast.Delete) for x in n.body):
+            converted.add(n.test.left.value)
+    nc = sorted(canon - ctor - converted)
+    # is anything rejected at the file level?
+    f1 = repo.func("parser", "make_adapters_from_one_specification")
+    file_rejected = {x.value for n in ast.walk(f1) if isinstance(n, ast.If) and any(isinstance(r_, ast.Raise) for r_ in ast.walk(n)) for x in ast.walk(n.test) if isinstance(x, ast.Constant) and isinstance(x.value, str)}
+    for n in ast.walk(f1):
+        if isinstance(n, ast.For) and any(isinstance(r_, ast.Raise) for r_ in ast.walk(n)) and isinstance(n.iter, (ast.Tuple, ast.List, ast.Set)):
+            file_rejected |= {e.value for e in n.iter.elts if isinstance(e, ast.Constant) and isinstance(e.value, str)}
+    n_ob = 0
+    for fname in ("_make_not_linked_adapter", "_make_linked_adapter"):
+        f = repo.func("parser", fname)
+        ps = params(f)
+        low = ps[-1]  # the lower-level dict (global options, possibly updated with the file level)
+        merged = {n.targets[0].id for n in ast.walk(f) if isinstance(n, ast.Assign) and isinstance(n.targets[0], ast.Name) and isinstance(n.value, ast.Call) and isinstance(n.value.func, ast.Attribute) and n.value.func.attr == "copy" and chain(n.value.func.value) == low}
+        for n in ast.walk(f):  # a loop over the merged dicts: its variable stands for each of them
+            if isinstance(n, ast.For) and isinstance(n.iter, (ast.Tuple, ast.List)) and n.iter.elts and all(isinstance(e, ast.Name) and e.id in merged for e in n.iter.elts) and isinstance(n.target, ast.Name):
+                merged = merged | {n.target.id}
+        spec_dicts = {chain(x.func.value) for x in calls(f) if isinstance(x.func, ast.Attribute) and x.func.attr in ("pop", "get", "update") and chain(x.func.value) and chain(x.func.value).endswith(".parameters")}
+        for key in nc:
+            n_ob += 1
+            popped_merged = any(isinstance(x.func, ast.Attribute) and x.func.attr == "pop" and chain(x.func.value) in merged and x.args and isinstance(x.args[0], ast.Constant) and x.args[0].value == key for x in calls(f))
+            popped_spec = any(isinstance(x.func, ast.Attribute) and x.func.attr == "pop" and (chain(x.func.value) or "").endswith(".parameters") and x.args and isinstance(x.args[0], ast.Constant) and x.args[0].value == key for x in calls(f))
+            def rejects(where):
+                for n in ast.walk(f):
+                    if isinstance(n, ast.If) and any(isinstance(r_, ast.Raise) for r_ in n.body) and any(isinstance(x, ast.Constant) and x.value == key for x in ast.walk(n.test)):
+                        names = {chain(x) for x in ast.walk(n.test) if isinstance(x, (ast.Name, ast.Attribute)) and chain(x)}
+                        if where == "merged" and names & merged:
+                            return True
+                        if where == "spec" and any(nm.endswith(".parameters") for nm in names):
+                            return True
+                return False
+            # 'rightmost' and 'required' of the specification itself are consumed by AdapterSpecification.parse / the linked logic
+            c2, pa = repo.need_method("AdapterSpecification", "parse")
+            consumed_in_parse = any(isinstance(x.func, ast.Attribute) and x.func.attr == "pop" and x.args and isinstance(x.args[0], ast.Constant) and x.args[0].value == key for x in calls(pa))
+            spec_ok = popped_spec or popped_merged or rejects("spec") or rejects("merged") or consumed_in_parse
+            file_ok = popped_merged or rejects("merged") or key in file_rejected
+            for route, ok_ in (("specification", spec_ok), ("file level", file_ok)):
+                report.ob("C18.R3", f"{fname}: '{key}' given at the {route} never reaches the adapter constructor", ok_,
+                          facts={"popped_from_merged_dict": popped_merged, "popped_from_the_specification's_own_dict": popped_spec or consumed_in_parse, "rejected_at_file_level": key in file_rejected},
+                          expected="popped before **parameters, or rejected with ValueError/KeyError (-> exit status 2)", loc=repo.loc(f), fact_key="nonconstructor-key-leaks",
+                          why="" if ok_ else f"'{key}' is not a keyword of the adapter classes and nothing removes or rejects it on this route: the constructor raises TypeError, which adapters_from_args does not convert (traceback, exit status 1)")
+    report.floor("C18.R3", "non-constructor keys x maker functions", n_ob, 4)
